@@ -343,7 +343,7 @@ func (p *PopRegistry) RegisterSingleton(s any) {
 	ok = true
 }
 func (p *PopRegistry) GetSingleton(name string) (any, error) { return p.Inner.GetSingleton(name) }
-func (p *PopRegistry) ContainsSingleton(name string) bool   { return p.Inner.ContainsSingleton(name) }
+func (p *PopRegistry) ContainsSingleton(name string) bool    { return p.Inner.ContainsSingleton(name) }
 func (p *PopRegistry) GetSingletonCount() int                { return p.Inner.GetSingletonCount() }
 func (p *PopRegistry) GetSingletonNames() []string {
 	ns := p.Inner.GetSingletonNames()
